@@ -731,6 +731,14 @@ impl ReCompiler {
                     || quantifier_type == Some('*')
                     || (quantifier_type == Some('{') && self.bracket_min == 0)
                 {
+                    // a following '?' (reluctant marker) still belongs to
+                    // this quantifier
+                    if self.idx < self.len && self.pattern[self.idx] == '?' {
+                        if self.re_flags.language() == Language::XSD {
+                            return Err(Error::syntax("Reluctant quantifier not allowed in XSD"));
+                        }
+                        self.idx += 1;
+                    }
                     return Ok(Operation::from(Nothing));
                 } else {
                     quantifier_type = None
